@@ -28,7 +28,7 @@ PyObject* py_histogram(PyObject* self, PyObject* args) {
     if (!PyArg_ParseTuple(args, "OO", &array, &histogram) ||
             !PyArray_Check(array) ||
             !PyArray_Check(histogram) ||
-            !PyArray_ISCARRAY(array) ||
+            !PyArray_ISCARRAY_RO(array) ||
             !PyArray_ISCARRAY(histogram) ||
             PyArray_TYPE(histogram) != NPY_UINT
             ) {
